@@ -86,6 +86,9 @@ func c12Cases(c *ev.Ctx) []c12Case {
 		out = append(out, c12Case{Kind: "lossless", Class: []string{"bands", "pillarbox", "bands"}[k%3], Alpha: "opaque",
 			W: 300 + r.Intn(240), H: 240 + r.Intn(170), Method: 3 + k%4, Quality: []float32{100, 90, 95}[k%3]})
 	}
+	for k := 0; k < c.N(3, 30); k++ {
+		out = append(out, c12Case{Kind: "animbad", Class: "-", Alpha: "-", Extra: k})
+	}
 	return out
 }
 
@@ -145,6 +148,20 @@ func c12Digest(c *ev.Ctx, idx int, cc c12Case) (string, error) {
 			return "", err
 		}
 		return fmt.Sprintf("file=%s dec=%s cfg=%dx%d", ev.Sum(file), c12ImgSum(d), cfgd.Width, cfgd.Height), nil
+	case "animbad":
+		// several undecodable frames: which error is reported must not depend on the number of workers
+		an, err := animation.DecodeBytes(badFramesAnim(r))
+		if err != nil {
+			return "", err
+		}
+		e1 := an.DecodeFramesParallel()
+		got := ""
+		for i := range an.Frames {
+			if an.Frames[i].HasImage() {
+				got += fmt.Sprint(i, ",")
+			}
+		}
+		return fmt.Sprintf("err=%v decoded=%s", e1, got), nil
 	case "anim":
 		var buf bytes.Buffer
 		e := animation.NewEncoder(&buf, cc.W, cc.H, &animation.EncodeOptions{Lossless: cc.Method == 1, Quality: 70})
